@@ -16,7 +16,7 @@ func init() {
 	fw.Register(&fw.Property{
 		ID:    "C07",
 		Level: "exploration",
-		Rule: "(a) exhaustive per-column table: for each of the 17x17 symbol pairs (a,b) query = a+PAD, target = b+PAD (PAD unambiguous, equal in both), observed through closest -n |T| --table with measure snp and raw, in four case layouts; (b) random pairs of width 4-400 over the full alphabet for snp/raw and mostly-A/C/G/T pairs with all four bases and <25% divergence for tn93, observed through closest -n |T| --table (|Q|x|T| distances per run), plus swapped-file runs for symmetry; " +
+		Rule: "(a) exhaustive per-column table: for each of the 17x17 symbol pairs (a,b) query = a+PAD, target = b+PAD (PAD unambiguous, equal in both), observed through closest -n |T| --table with measure snp and raw, in four case layouts; (b) random pairs of width 4-400 over the full alphabet for snp/raw and mostly-A/C/G/T pairs with all four bases and <25% divergence for tn93, observed through closest -n |T| --table (|Q|x|T| distances per run), through closest -n K --table with K in {1,2,random} and an optional -d at an occurring distance (each listed row's distance is that of its own pair), through plain closest, plus swapped-file runs for symmetry; " +
 			"distinct non-trivial = distinct (measure, symbol pair, layout) cells plus distinct (measure, n, same, P1, P2, Tv) count tuples of random pairs with at least one difference",
 		Assumptions: []string{"pairs whose distance is undefined (no jointly resolved site; tn93 log argument <= 1e-6 or a zero target base frequency) are skipped and counted, their ordering is C06's business",
 			"tn93 is compared with tolerance 1e-9 + 1e-7*|d| (9 printed decimals)"},
@@ -265,6 +265,58 @@ func runC07(c *fw.Ctx, idx int) fw.Result {
 				res.Count("plain_rows_compared_"+measure, 1)
 				if msg != "" {
 					res.Fail("plain-distance-"+measure, fmt.Sprintf("row %d (query %s, closest %s): %s", i+1, q.ID, t.ID, msg), pf, pargv)
+				}
+			}
+		}
+	}
+	// the distance of a listed pair is the same whatever the capacity and the distance bound: the
+	// table with -n K (K = 1, 2, or anything below the number of targets) and an optional -d lists
+	// fewer rows, each with the distance of its own pair
+	if layout < 0 {
+		K := []int{1, 1, 2, 1 + r.Intn(len(ts))}[r.Intn(4)]
+		D := -1.0
+		if r.Chance(0.3) {
+			if v, e := strconv.ParseFloat(tab[qs[0].ID][ts[r.Intn(len(ts))].ID], 64); e == nil && !math.IsNaN(v) && !math.IsInf(v, 0) {
+				D = v
+			}
+		}
+		kout, kerr := run.ClosestN(K, D, qText, tText, measure, true, threads)
+		res.Evals++
+		kf := map[string]string{"query.fasta": qText, "target.fasta": tText, "observed.csv": kout}
+		kargv := []string{"closest", "-m", measure, "-n", fmt.Sprint(K), "-d", fmt.Sprint(D), "--table"}
+		klines := strings.Split(strings.TrimSuffix(kout, "\n"), "\n")
+		if kerr != nil || klines[0] != "query,target,distance" {
+			res.Fail("error-on-valid-input", fmt.Sprintf("closest -n %d --table failed or wrote no table: %v", K, kerr), kf, kargv)
+		} else {
+			qByID, tByID := map[string]gen.FastaRec{}, map[string]gen.FastaRec{}
+			for _, q := range qs {
+				qByID[q.ID] = q
+			}
+			for _, t := range ts {
+				tByID[t.ID] = t
+			}
+			for i, l := range klines[1:] {
+				f := strings.Split(l, ",")
+				if len(f) != 3 {
+					res.Fail("table-format", fmt.Sprintf("row %d of the -n %d table is %q", i+1, K, l), kf, kargv)
+					break
+				}
+				q, ok1 := qByID[f[0]]
+				t, ok2 := tByID[f[1]]
+				if !ok1 || !ok2 {
+					res.Fail("table-format", fmt.Sprintf("row %d of the -n %d table names an unknown record: %q", i+1, K, l), kf, kargv)
+					break
+				}
+				msg, skipped := checkPairDistance(measure, q.Seq, t.Seq, f[2])
+				if skipped {
+					continue
+				}
+				res.Count("small_n_table_rows_compared_"+measure, 1)
+				if K == 1 {
+					res.Count("n1_table_rows_compared", 1)
+				}
+				if msg != "" {
+					res.Fail("small-n-distance-"+measure, fmt.Sprintf("-n %d table row %d (query %s, target %s): %s", K, i+1, q.ID, t.ID, msg), kf, kargv)
 				}
 			}
 		}
